@@ -207,6 +207,9 @@ pub struct SchedCfg {
     /// candidate. 0 = only when nothing else can run.
     pub timeout_bias: u32,
     pub max_steps: u64,
+    /// Steps without any sample/packet moving on any stream after which the
+    /// run counts as stalled (0 = off).
+    pub stall_steps: u64,
     /// Make the n-th thread creation fail (fault injection).
     pub spawn_fail_at: Option<usize>,
     pub pct_changes: Vec<u64>,
@@ -234,6 +237,7 @@ impl SchedCfg {
             strategy,
             timeout_bias,
             max_steps,
+            stall_steps: 0,
             spawn_fail_at: None,
             pct_changes,
         }
@@ -271,6 +275,8 @@ struct Th {
 pub enum Abort {
     Deadlock,
     StepBudget,
+    /// No stream activity for `stall_steps` steps.
+    Stalled,
     Requested,
 }
 
@@ -294,6 +300,8 @@ pub struct Inner {
     pub deadlock_info: String,
     /// Global event stamp for history oracles.
     pub stamp: u64,
+    pub last_move_step: u64,
+    pub moved_total: u64,
 }
 
 impl Inner {
@@ -340,6 +348,8 @@ impl Sched {
                 min_prio: 0,
                 deadlock_info: String::new(),
                 stamp: 0,
+                last_move_step: 0,
+                moved_total: 0,
             }),
         });
         register(&s);
@@ -402,7 +412,7 @@ impl Sched {
         let aborted = self.lock().aborted;
         match r {
             Ok(v) => match aborted {
-                Some(Abort::Deadlock) | Some(Abort::StepBudget) => Err(aborted.unwrap()),
+                Some(Abort::Deadlock) | Some(Abort::StepBudget) | Some(Abort::Stalled) => Err(aborted.unwrap()),
                 _ => Ok(v),
             },
             Err(p) => {
@@ -504,6 +514,21 @@ impl Sched {
             return Self::abort_exit(g);
         }
         g.steps += 1;
+        if g.cfg.stall_steps > 0 && g.steps - g.last_move_step > g.cfg.stall_steps {
+            g.aborted = Some(Abort::Stalled);
+            g.deadlock_info = g
+                .threads
+                .iter()
+                .enumerate()
+                .filter(|(_, t)| t.state != St::Exited)
+                .map(|(i, t)| format!("{}:{}={:?}", i, t.name, t.state))
+                .collect::<Vec<_>>()
+                .join(", ");
+            for t in &g.threads {
+                t.cv.notify_all();
+            }
+            return Self::abort_exit(g);
+        }
         if g.steps > g.cfg.max_steps {
             g.aborted = Some(Abort::StepBudget);
             for t in &g.threads {
@@ -878,6 +903,11 @@ impl Runtime for Sched {
     fn window(&self, buf: usize, kind: WindowKind, open: bool, start: usize, end: usize, cap: usize) {
         self.lock().windows.event(buf, kind, open, start, end, cap);
     }
+    fn moved(&self, _buf: usize, n: usize) {
+        let mut g = self.lock();
+        g.last_move_step = g.steps;
+        g.moved_total += n as u64;
+    }
 }
 
 // A managed thread needs an `Arc<Sched>` for its thread-local; the trait
@@ -909,7 +939,14 @@ pub fn abort_violation(prop: &str, a: Abort, g: &Inner, fair: bool) -> Option<Vi
             format!("{prop}:deadlock"),
             format!("no thread can run: {}", g.deadlock_info),
         )),
-        Abort::StepBudget if fair => Some(Violation::new(
+        Abort::Stalled if fair => Some(Violation::new(
+            format!("{prop}:no-termination"),
+            format!(
+                "no sample moved on any stream for {} scheduler steps under a fair strategy, threads still alive: {}",
+                g.cfg.stall_steps, g.deadlock_info
+            ),
+        )),
+        Abort::StepBudget if fair && g.cfg.stall_steps == 0 => Some(Violation::new(
             format!("{prop}:no-termination"),
             format!("step budget of {} exhausted under a fair strategy", g.cfg.max_steps),
         )),
